@@ -5,6 +5,7 @@ id_to_stmt, NumpyInterpreter.run_single_step/run (wired modes).
 Simulated: the target (guards, dynamic plan requests, cut-offs), iteration order of
 every dependency set and of the sinks, storage order, initial plan, step count.
 """
+import numpy as np
 from pymbolic import var
 
 from dagrt.exec_numpy import (FailStepException, NumpyInterpreter, TransitionEvent,
@@ -37,12 +38,16 @@ META = {"C04": {
                     "the controller is reset at the start of each step, as the interpreter does"],
     "probes": ["request_executed", "request_planned", "request_new", "cutoff_then_step",
                "guard_false_with_dependents", "nested_request", "real_guard_false", "abandon_wired",
-               "phase_made_by_copy"],
+               "phase_made_by_copy", "guard_value_not_a_python_bool", "inner_stepper_ran_inside_a_step"],
 }}
 
 
 class Foreign(Exception):
     pass
+
+
+FOREIGN_CLASSES = [Foreign, AttributeError, KeyError, TypeError, ValueError, NotImplementedError, LookupError,
+                   ZeroDivisionError]
 
 
 def make_stmt(kind, sid, deps, cond=True):
@@ -84,6 +89,8 @@ class Monitor:
         self.p_request = 0.0
         self.p_cut = 0.0
         self.p_false = 0.0
+        self.inner = None
+        self.p_inner = 0.0
 
     def add_phase(self, name, ids, deps, kinds, anc, literal_false):
         self.phases[name] = dict(ids=ids, idx={s: i for i, s in enumerate(ids)}, deps=deps, kinds=kinds,
@@ -132,6 +139,11 @@ class Monitor:
 
     # ---- callbacks
     def on_cond(self, stmt):
+        if self.cut is not None:
+            self.viol("continued-after-cutoff", "%r visited after a statement of this step raised %s"
+                      % (stmt.id, type(self.cut).__name__))
+        if self.inner is not None and self.tape.chance(self.p_inner, "inner_step"):
+            self.inner()
         i = self.idx.get(stmt.id)
         if i is None:
             self.viol("foreign-statement", "callback for unknown statement %r" % (stmt.id,))
@@ -173,7 +185,11 @@ class Monitor:
         self.cur["visits"].append([stmt.id, guard])
         if guard:
             self.pending = i
-        return guard
+        # what a guard evaluates to is rarely the object True/False (numpy booleans, numbers)
+        form = self.tape.draw(4, "guardform")
+        if form:
+            self.ctx.count("probe:guard_value_not_a_python_bool")
+        return ([True, np.True_, 1, 2.5] if guard else [False, np.False_, 0, 0.0])[form]
 
     def on_exec(self, name, stmt):
         i = self.idx.get(stmt.id)
@@ -199,7 +215,9 @@ class Monitor:
             if act == 3:
                 kind = tape.draw(3, "cutkind")
                 target = sorted(self.phases)[tape.draw(len(self.phases), "switchto")]
-                exc = [FailStepException(), TransitionEvent(target), Foreign("injected")][kind]
+                # an error inside a statement can be of any class
+                fcls = FOREIGN_CLASSES[tape.draw(len(FOREIGN_CLASSES), "foreigncls")] if kind == 2 else Foreign
+                exc = [FailStepException(), TransitionEvent(target), fcls("injected")][kind]
                 self.cut = exc
                 self.ctx.count("fault:cutoff_" + ["failstep", "transition", "foreign"][kind])
                 self.cur["visits"][-1].append("cut:" + type(exc).__name__)
@@ -501,6 +519,32 @@ def run_c04(ctx):
     mon.mode = mode
     mon.chooser = chooser
     mon.p_request, mon.p_cut, mon.p_false = p_request, p_cut, p_false
+    # a nested stepper: some callback of the observed step advances another controller of the same
+    # description by a whole step (what a user function that integrates an inner problem does)
+    with tape.span("inner"):
+        mon.p_inner = [0.0, 0.0, 0.05, 0.25][tape.draw(4, "p_inner")]
+    if mon.p_inner:
+        ec_inner = ExecutionController(code)
+
+        class Quiet:
+            def evaluate_condition(self, stmt):
+                return True
+
+            def __getattr__(self, name):
+                if name.startswith("exec_"):
+                    return lambda stmt: None
+                raise AttributeError(name)
+        quiet = Quiet()
+
+        def inner():
+            ph_i = phases[sorted(phases)[tape.draw(len(phases), "innerphase")]]
+            ec_inner.reset()
+            ec_inner.update_plan(ph_i, ph_i.depends_on)
+            for _ev in ec_inner(ph_i, quiet):
+                pass
+            ctx.count("probe:inner_stepper_ran_inside_a_step")
+            ctx.count("fault:nested_stepper_step")
+        mon.inner = inner
     ctx.decoded.update({"mode": mode, "shape": shape, "ids": ids,
                         "deps": {ids[i]: [ids[j] for j in deps[i]] for i in range(n)},
                         "kinds": dict(zip(ids, kinds)), "steps": mon.steps_decoded,
@@ -545,7 +589,7 @@ def run_c04(ctx):
                             cut = True
                             ctx.count("fault:cutoff_abandon")
                             break
-                except (FailStepException, TransitionEvent, Foreign) as e:
+                except (FailStepException, TransitionEvent) + tuple(FOREIGN_CLASSES) as e:
                     if e is not mon.cut:
                         mon.viol("exception-identity", "controller raised %r, target raised %r"
                                  % (e, mon.cut))
@@ -577,7 +621,7 @@ def run_c04(ctx):
                                 ctx.count("fault:cutoff_abandon")
                                 ctx.count("probe:abandon_wired")
                                 break
-                    except (FailStepException, TransitionEvent, Foreign) as e:
+                    except (FailStepException, TransitionEvent) + tuple(FOREIGN_CLASSES) as e:
                         if e is not mon.cut:
                             mon.viol("exception-identity", "interpreter raised %r, target raised %r"
                                      % (e, mon.cut))
@@ -627,7 +671,7 @@ def run_c04(ctx):
                                 ctx.count("fault:cutoff_abandon")
                                 ctx.count("probe:abandon_wired")
                                 break
-                except Foreign as e:
+                except tuple(FOREIGN_CLASSES) as e:
                     foreign = True
                     if e is not mon.cut:
                         mon.viol("exception-identity", "run() raised %r, target raised %r" % (e, mon.cut))
